@@ -31,11 +31,17 @@ ENTRY = dict(
             "the delivered object IS the object passed in (pass-through filters)": "correspondence (identity observed by the harness; values: theorem passThrough_sublist)",
             "chains of two filters": "theorem (chain_delivered, chain_throttle_spacing, holds_chain)",
             "tolerance 0.1 = source constant": "theorem over the translated constant (tolerance_is_one_tenth)",
+            "values are snapshots: a container changed in place by its owner and passed again as the same object": "correspondence (mode `inplace`: ONE list / dict object, empty when first delivered or cleared later, singleton, nested list of lists / dict of lists, changed by clear / append / del / item and slice assignment and passed again; every filter and chains; the model sees the content at the time of each call). Flat containers: holds; an INNER container changed in place: open finding F10 (shallow copy)",
             "filters.py behaves as the machines": "correspondence (generated sequences; judge C20.spec on every implementation run)",
             "float tolerance boundary (inputs exactly 0.1 apart in decimal)": "modelled, not exercised",
         },
+        public_routes=(
+            "route audit: on_change, debounce, throttle, delta, aggregate, custom (4 predicates) and every ordered pair chained — driven; the RESULT of a filter call (what the "
+            "event manager threads on) — C13 (Filter.stepR, c13fr); Filter.__eq__ — C13 (unsubscribe by a new filter object); several objects from one factory expression — driven; "
+            "overlapping calls to one filter object — outside the quantifier (observed: aggregate loses what is added while its callback is suspended)."),
         assumptions=COMMON_ASSUME + [
             "numbers reaching a filter are exactly representable (the harness uses multiples of 1/16 below 10^6); math.isclose's relative tolerance 1e-9 is then inert",
+            "dicts are carried in the model as opaque values with structural equality and no subtraction (the string of their key-sorted text), nested lists as lists of injective codes of the inner lists: the filters only use ==, `in` and - on values",
             "Parameter objects are not mixed with values of other kinds in one sequence; values of different kinds compare as changed (Python 3.12: truthy NotImplemented)",
             "calls to one filter object do not overlap (each call is awaited before the next)",
         ],
